@@ -80,8 +80,11 @@ def main(ctx: Ctx):
         ctx.cov['recorded_stream_bytes'] = {k: len(v) for k, v in streams.items()}
         faults = []
         for kind, stream in streams.items():
+            if kind == 'worker-slow':
+                continue
             L = len(stream)
-            offs = set(range(0, L, 1 if T else 7)) | {0, 1, 2, 3, 4, 5, L - 1}
+            # (offset L: the complete request is sent and the client vanishes at once)
+            offs = set(range(0, L, 1 if T else 7)) | {0, 1, 2, 3, 4, 5, L - 1, L}
             # message boundaries: 4-byte length prefixes
             o = 0
             while o + 4 <= L:
@@ -89,16 +92,20 @@ def main(ctx: Ctx):
                 for d in (-1, 0, 1, 3, 4, 5):
                     offs.add(o + d)
                 o += 4 + n
-            for off in sorted(x for x in offs if 0 <= x < L):
+            # (a complete context-delete request is a valid deletion, not a failure of that client)
+            for off in sorted(x for x in offs if 0 <= x <= L and not (x == L and kind == 'ctx-delete')):
                 for how in (('fin', 'rst') if (T or off % 2 == 0) else ('fin',)):
                     faults.append(('cut', kind, off, how))
         for kind in ('worker', 'pworker', 'worker-in-ctx'):
             for step in ('no-connect', 'connect-close', 'after-info'):
                 for how in ('fin', 'rst'):
                     faults.append(('handshake', kind, step, how))
+        # the client vanishes while the backend is still starting up (after the control connect, before the runtime info)
+        for how in ('fin', 'rst'):
+            faults.append(('handshake', 'worker-slow', 'connect-close', how))
         if not T:
-            keep = [f for f in faults if f[0] == 'handshake']
-            cuts = [f for f in faults if f[0] == 'cut']
+            keep = [f for f in faults if f[0] == 'handshake' or (f[0] == 'cut' and f[2] == len(streams[f[1]]))]
+            cuts = [f for f in faults if f[0] == 'cut' and f[2] != len(streams[f[1]])]
             keep += rng.sample(cuts, min(len(cuts), 110))
             faults = keep
         # ---- a server that has not served anybody yet: the faulty client is its very first one
@@ -164,7 +171,7 @@ def main(ctx: Ctx):
                             culprit = (g, b2)
                             break
                     g, b = culprit if culprit else (pending[-1], bad)
-                    where = f'{g[0]}:{g[1]}:{g[2] if g[0] == "handshake" else ("header" if g[2] < len(streams[g[1]]) and g[2] <= 4 + int.from_bytes(streams[g[1]][:4], "big") else "payload")}'
+                    where = f'{g[0]}:{g[1]}:{g[2] if g[0] == "handshake" else ("header" if g[2] < len(streams[g[1]]) and g[2] <= 4 + int.from_bytes(streams[g[1]][:4], "big") else "complete" if g[2] >= len(streams[g[1]]) else "payload")}'
                     ctx.fail(f'{b[0]}:{where}', f'after a client sent a {g[1]} request and failed ({g[0]} at {g[2]}, {g[3]}): {b[1]}', {'fault': list(g), 'sequence': [list(x) for x in pending]})
                     sut = None
                 pending = []
@@ -181,7 +188,8 @@ def replay(case):
     try:
         for g in case.get('sequence', [case['fault']]):
             if g[0] == 'cut':
-                RP.send_cut(sut.addr, streams[g[1]], g[2], g[3])
+                # (offset -1 in a corpus file: the complete request)
+                RP.send_cut(sut.addr, streams[g[1]], len(streams[g[1]]) if g[2] == -1 else g[2], g[3])
             else:
                 RP.handshake_fault(sut.addr, streams[g[1]], g[2], g[3])
         time.sleep(0.1)
